@@ -776,3 +776,16 @@ impl Scope {
         Scope(scope::Scope::Top)
     }
 }
+
+#[cfg(cormacrelf_incremental_rs_verif)]
+impl<T: Value> Observer<T> {
+    /// verification hook: lifecycle state and number of registered handlers
+    pub fn verif_state(&self) -> String {
+        use super::internal_observer::ErasedObserver;
+        format!(
+            "{:?} handlers={}",
+            self.internal.state.get(),
+            self.internal.num_handlers()
+        )
+    }
+}
